@@ -1194,7 +1194,7 @@ func ruleC17EveryClientAsked(c *Ctx) {
 // makes the SDK reject ids that an implementation following the documented format wrote.
 func ruleC18IDsAreDataNotPatterns(c *Ctx) {
 	u := c.U1
-	c.rule("C18.ids-are-data-not-patterns", "in package appencryption every fmt.Sprintf/Errorf/Fprintf-style call has a constant format string, and every regexp.Compile/MustCompile/Match*/QuoteMeta-less pattern is a constant: run-time strings (key ids, partition ids) are only ever data; no id is tokenised with strings.Split*/Fields/Cut", 4)
+	c.rule("C18.ids-are-data-not-patterns", "in package appencryption every fmt.Sprintf/Errorf/Fprintf-style call has a constant format string, and every regexp.Compile/MustCompile/Match*/QuoteMeta-less pattern is a constant: run-time strings (key ids, partition ids) are only ever data; no id is tokenised with strings.Split*/Fields/Cut", 2)
 	n := 0
 	for _, f := range u.RepoFuncs {
 		root := rootFunc(f)
